@@ -21,6 +21,9 @@ ALIAS_VARIANTS = {
     "swapped": {"X": ("MyX", "p"), "p": ("MyP", "X")},  # alias targets that look like other names of the file
     "same-target": {"X": ("MyX", "D0"), "Y": ("MyY", "D0"), "Z": ("MyZ", "D0")},  # several decaying aliases of one particle
     "alias-of-table": {"X": ("MyX", "@Y")},  # a decaying alias of a name that has its own (different) Decay block
+    # no alias at all, only other names: the mother's name contains the name of a decaying daughter (eta' / eta)
+    "name-contains-X": {"M": ("pX", None)},
+    "name-contains-Y": {"M": ("qY", None)},
 }
 
 
@@ -37,7 +40,7 @@ def build(t, alias, tag=""):
     for k, (alias_name, target) in amap.items():
         nm = alias_name + tag if k in tabs else alias_name
         used = k in tabs or any(k in ds for lines in t.values() for ds in lines)
-        if used:
+        if used and target is not None:
             if target.startswith("@"):
                 # the aliased name is another decaying particle of the same file
                 tk = target[1:]
@@ -178,7 +181,7 @@ def run(ctx):
     items += [(t, "derived") for t in base[:: (1 if ctx.thorough else 2)] if "X" in t or "Y" in t]
     # alias variants on a slice of the generated sets (all of them in thorough)
     step = 1 if ctx.thorough else 7
-    for a in ("top", "nested", "stable", "all", "swapped", "same-target", "alias-of-table"):
+    for a in ("top", "nested", "stable", "all", "swapped", "same-target", "alias-of-table", "name-contains-X", "name-contains-Y"):
         items += [(t, a) for t in base[(ctx.seed % step)::step]]
     ctx.log(f"{len(items)} (table set, alias variant) scenarios, packed 40 per file")
     ctx.sample({"tables": spines[1], "alias": "all", "text": decmodel.render(build(spines[1], "all"))})
